@@ -15,7 +15,7 @@ def check_C20(ctx, rep):
     from . import rules_base
     tr, b = rules_base.get_tree(rep, f, "R54g", "fn:no_overlap")
     if tr is not None:
-        rules_base.expect_equiv(rep, "R54g", "deserialisation gate is Definition 1.4", "gate-predicate", D.expand_bool_leaves(tr), rules_base.no_overlap_ref(), b,
+        rules_base.expect_equiv(rep, "R54g", "deserialisation gate is Definition 1.4", "gate-predicate", D.expand_bool_leaves(tr), [rules_base.no_overlap_ref(i) for i in ("i16", "i32", "i64", "isize")], b,
                                 "no_overlap (behind TryFrom<(f64,f64)>) equals the reference form: overlapping or non-finite words are rejected")
     tr, b = rules_base.get_tree(rep, f, "R54g", "<TwoFloat as core::convert::TryFrom<(f64, f64)>>::try_from")
     if tr is not None:
